@@ -305,6 +305,28 @@ def _derive_impls(text, kind, name, derives):
         elif d == 'PartialEq':
             out.append('impl%s PartialEq for %s%s { #[verifier::external_body] fn eq(&self, o: &Self) -> bool { unimplemented!() } }' % (decl('PartialEq'), name, use))
             out.append('impl%s vstd::std_specs::cmp::PartialEqSpecImpl for %s%s { open spec fn obeys_eq_spec() -> bool { true } open spec fn eq_spec(&self, o: &Self) -> bool { *self == *o } }' % (decl('PartialEq'), name, use))
+        elif d == 'Constructor':
+            # derive_more::Constructor: `new(field, ..) -> Self` in declaration order (generated code, verified not assumed)
+            m = re.search(r'\{(.*)\}\s*$', text, re.S)
+            if not m:
+                raise Undecided('derive Constructor on non-struct %s' % name)
+            fields, cur, depth = [], '', 0
+            for ch in m.group(1):
+                if ch in '<([': depth += 1
+                if ch in '>)]': depth -= 1
+                if ch == ',' and depth == 0:
+                    fields.append(cur); cur = ''
+                else:
+                    cur += ch
+            if cur.strip(): fields.append(cur)
+            fl = []
+            for f in fields:
+                f = re.sub(r'^\s*pub(\([a-z]+\))?\s+', '', f.strip())
+                nm, ty = f.split(':', 1)
+                fl.append((nm.strip(), ty.strip()))
+            out.append('impl%s %s%s { pub fn new(%s) -> (r: Self) ensures %s { Self { %s } } }' % (
+                decl(''), name, use, ', '.join('%s: %s' % x for x in fl),
+                ', '.join('r.%s == %s' % (n, n) for n, _ in fl), ', '.join(n for n, _ in fl)))
         elif d == 'Default':
             out.append('impl%s Default for %s%s { #[verifier::external_body] fn default() -> Self { unimplemented!() } }' % (decl('Default'), name, use))
         else:
